@@ -28,7 +28,14 @@ class CaseTimeout(Exception):
     pass
 
 
+TIMED_OUT = [False]
+
+
 def _alarm(signum, frame):
+    # lcapy contains bare `except:` clauses that can swallow this exception and carry on with a fall-back
+    # value: remember that the budget was exceeded (the whole case is then discarded) and keep interrupting
+    TIMED_OUT[0] = True
+    signal.alarm(2)
     raise CaseTimeout()
 
 
@@ -327,12 +334,17 @@ def main():
     out = []
     for c in cases:
         try:
+            TIMED_OUT[0] = False
             signal.alarm(int(c.get('timeout', 60)))
             try:
-                out.append(run(c))
+                r_ = run(c)
             finally:
                 signal.alarm(0)
+            if TIMED_OUT[0]:
+                raise CaseTimeout()
+            out.append(r_)
         except CaseTimeout:
+            signal.alarm(0)
             out.append({'error': 'timeout: case exceeded its time budget'})
         except Exception as e:
             import traceback
